@@ -113,6 +113,20 @@ def run_one(mod, case):
 
 def worker_main(argv):
     cid, fin, fout = argv
+    cov = None
+    if os.environ.get("VERIF_COVERAGE_DIR"):
+        # reach map (tools/reach.py): which lines of the library the workloads of this check actually execute
+        import coverage
+
+        cov = coverage.Coverage(
+            data_file=os.path.join(os.environ["VERIF_COVERAGE_DIR"], f"cov.{cid}.{os.getpid()}"),
+            include=[os.path.join(os.path.realpath(env.REPO), "src", "aspire", "*")],
+            branch=True,
+        )
+        cov.start()
+        import atexit
+
+        atexit.register(lambda: (cov.stop(), cov.save()))
     env.assert_repo()
     env.quiet()
     mod = load_check(cid)
